@@ -90,17 +90,23 @@ VARIANTS.update({
     'simple_bounds@sd0': ('simple_bounds', dict(second_derivatives=0.0)),
     'simple_bounds@icg': ('simple_bounds', dict(infeasible_cg=True)),
     'simple_bounds@r0.1': ('simple_bounds', dict(initial_radius=0.1)),
-    'simple_bounds@tol': ('simple_bounds', dict(tolerance=1e-9)),
+    'simple_bounds@tol': ('simple_bounds', dict(tolerance=1e-8)),
+    'simple_bounds_BFGS@tol': ('simple_bounds_BFGS', dict(tolerance=1e-8)),
+    'TR-BFGS@tol': ('TR-BFGS', dict(tolerance=1e-8)),
+    'LS-BFGS@tol': ('LS-BFGS', dict(tolerance=1e-8)),
+    'TR-newton@tol': ('TR-newton', dict(tolerance=1e-8)),
     'TR-newton@nodogleg': ('TR-newton', dict(dogleg=False)),
     'TR-BFGS@nodogleg': ('TR-BFGS', dict(dogleg=False)),
     'TR-newton@r0.1': ('TR-newton', dict(initial_radius=0.1)),
-    'LS-newton@tol': ('LS-newton', dict(tolerance=1e-9)),
+    'LS-newton@tol': ('LS-newton', dict(tolerance=1e-8)),
     'simple_bounds@it2': ('simple_bounds', dict(max_iterations=2)),
     'simple_bounds_BFGS@it2': ('simple_bounds_BFGS', dict(max_iterations=2)),
     'LS-BFGS@it2': ('LS-BFGS', dict(max_iterations=2)),
     'TR-newton@it1': ('TR-newton', dict(max_iterations=1)),
 })
-QUICK_VARIANTS = ALGOS + ['simple_bounds@sd0.5', 'simple_bounds@it2', 'LS-BFGS@it2', 'TR-newton@nodogleg']
+QUICK_VARIANTS = ALGOS + ['simple_bounds@sd0.5', 'simple_bounds@tol', 'LS-BFGS@tol', 'simple_bounds@it2', 'LS-BFGS@it2',
+                          'TR-newton@nodogleg']
+DEFAULT_TOLERANCE = 2.220446049250313e-16 ** 0.25  # biogeme's default `tolerance` (relative gradient)
 THOROUGH_VARIANTS = list(VARIANTS)
 
 
@@ -575,8 +581,14 @@ def check_run(rec, tpl, rows, prob, refs, bname, lb, ub, bkind, sidx, variant, m
     if not (bounded and infeasible) and ref_ll > target_ll + 1e-8 * scale:
         viol('above-reference-maximum', f'likelihood at x* {ref_ll!r} exceeds the reference maximum {target_ll!r} of the '
              f'{"box" if bounded else "unconstrained"} problem', expected=target_ll, observed=ref_ll)
-    # (6) at reported convergence: KKT and agreement with the reference optimum
+    # (6) at reported convergence: KKT and agreement with the reference optimum.
+    # Tolerances: DESIGN (gradient 1e-2*scale, value 1e-6*scale) with the value tolerance widened to what the
+    # algorithms' own stopping rule permits on this problem: relative gradient <= tau with typf = max(1,|LL(start)|),
+    # i.e. |g_i| <= tau*S, propagated through the curvature: gap <= 1/2 g'(-H)^-1 g <= K^2*max|(-H)^-1|*(tau*S)^2.
+    tau = float(extra.get('tolerance', DEFAULT_TOLERANCE))
+    S = max(1.0, abs(ll_start), abs(ref_ll))
     gtol = 1e-2 * scale
+    vtol = max(1e-6 * scale, nf * nf * refs['ib'] * (tau * S) ** 2)
     if conv:
         for i in range(nf):
             at_ub = bounded and ub[i] is not None and abs(xs[i] - ub[i]) <= 1e-9
@@ -592,7 +604,7 @@ def check_run(rec, tpl, rows, prob, refs, bname, lb, ub, bkind, sidx, variant, m
             elif abs(ref_g[i]) > gtol:
                 viol('converged-but-gradient-not-zero', f'convergence reported, gradient {ref_g} at x*={xs} in free '
                      f'direction {i}', expected=f'|g| <= {gtol}', observed=ref_g[i])
-        if abs(ref_ll - target_ll) > 1e-6 * scale:
+        if abs(ref_ll - target_ll) > vtol:
             viol('converged-away-from-reference-maximum', f'convergence reported at x*={xs} with LL {ref_ll!r}; reference '
                  f'{"box" if bounded else "unconstrained"} maximum is {target_ll!r} at {x_box if bounded else x_free}',
                  expected=target_ll, observed=ref_ll)
@@ -624,8 +636,8 @@ def check_run(rec, tpl, rows, prob, refs, bname, lb, ub, bkind, sidx, variant, m
                      f'neither the start {start[i]!r} nor the estimate {xs[i]!r}', expected=[start[i], xs[i]], observed=o.initValue)
     if mode == 'estimate':
         bv = b.get_beta_values()
-        for k in range(prob.K):
-            want = xs[prob.free.index(k)] if prob.status[k] == 0 else prob.init[k]
+        for k in prob.free:  # get_beta_values() lists the free parameters only
+            want = xs[prob.free.index(k)]
             if bv.get(prob.names[k]) != want:
                 viol('get-beta-values-after-estimation', f'get_beta_values()[{prob.names[k]}] = {bv.get(prob.names[k])!r}, '
                      f'expected {want!r}', expected=want, observed=bv.get(prob.names[k]))
@@ -776,7 +788,7 @@ def tasks(tier, seed):
         for i in range(0, len(codes), chunk):
             out.append(dict(part='est', model=model, nrows=nrows, first=i, codes=[list(c) for c in codes[i:i + chunk]], tier=tier))
     # bootstrap histories: tables of a sub-family x every multiset resample
-    for model, nrows in [('L2', 4), ('N2', 3), ('L1', 4)] if tier == 'quick' else [('L2', 5), ('N2', 4), ('L1', 5), ('L3G', 4), ('L2F', 5)]:
+    for model, nrows in [('L2', 4), ('N2', 3), ('L3G', 4)] if tier == 'quick' else [('L2', 5), ('N2', 4), ('N3', 4), ('L3G', 4), ('L2F', 5)]:
         tpl = T[model]
         codes = list(itertools.product(range(nsymbols(tpl)), repeat=nrows))
         step = 3 if tier == 'quick' else 4
@@ -789,7 +801,7 @@ def references(prob, lb, ub, xfree):
     box = box_optimum(prob, lb, ub, xfree)
     if box is None:
         raise RuntimeError(f'reference: no KKT point found for lb={lb} ub={ub}')
-    return dict(free=(xfree, prob.eval(xfree, order=0)[0]), box=box)
+    return dict(free=(xfree, prob.eval(xfree, order=0)[0]), box=box, ib=inv_bound(prob, xfree))
 
 
 def run_task(task):
